@@ -187,7 +187,10 @@ struct ConcRun {
         for (auto& op : plan.ops) if (op.kind == "T") scripts[(size_t) op.arg(3) % ntasks].push_back(op);
         // ---- M-solo: every script alone, one after another
         std::vector<TaskOut> solo(ntasks), conc(ntasks);
-        { std::vector<Scratch> sc(ntasks); for (size_t t = 0; t < ntasks; t++) { sc[t].init(R); for (auto& op : scripts[t]) { uint64_t h0 = tl_hook_calls; solo[t].digests.push_back(exec(op, sc[t])); env.lib_calls++; env.logf("SOLO t%zu k%lld fieldmults=%llu", t, (long long) op.arg(0) % NKINDS, (unsigned long long) (tl_hook_calls - h0)); } } }
+        { std::vector<Scratch> sc(ntasks); for (size_t t = 0; t < ntasks; t++) { sc[t].init(R); for (auto& op : scripts[t]) { uint64_t h0 = tl_hook_calls; solo[t].digests.push_back(exec(op, sc[t])); env.lib_calls++;
+            // M-repeat: the same call again, on the same caller objects (records, scratch, outputs left as the first call left them), must give
+            // the same result: "functions keep no mutable state between calls" includes state parked in caller-visible records
+            { std::string again = exec(op, sc[t]); env.lib_calls++; if (again != solo[t].digests.back()) env.fail("C20", "M-repeat:same-call-same-result", strf("task %zu op kind %lld gives %s the first time and %s when the identical call is repeated on the same objects", t, (long long) op.arg(0) % NKINDS, solo[t].digests.back().c_str(), again.c_str())); } env.logf("SOLO t%zu k%lld fieldmults=%llu", t, (long long) op.arg(0) % NKINDS, (unsigned long long) (tl_hook_calls - h0)); } } }
         // ---- the same scripts as concurrent tasks under the seeded scheduler
         Scheduler sched; sched.p_switch_log2 = (uint32_t) plan.c("pswitch", 6);
         std::vector<Scratch> sc(ntasks); for (auto& s : sc) s.init(R);
